@@ -23,6 +23,22 @@ add("C12", "proof",
     "contract-based deductive verification: VCs generated from the typed Go AST of /repo, discharged by z3/cvc5; finite table facts by exhaustive evaluation of the real code",
     "DESIGN.md section 4 C12")
 
+add("C13", "proof",
+    "Contracts on the real packers/unpackers (polyEta/T1/T0/Z/W1 Pack and Unpack), key layouts (packPk/unpackPk/packSk/unpackSk) and unpackSig: each states the FIPS 204 bit-packing relation 'packed bytes read as a little-endian integer = coefficient offsets read as base-2^b digits' per block, for every value in range and every block position (symbolic block index), plus lemmas that in-range digits are unique (unpack(pack(v)) = v, pack(unpack(b)) = b) and unpackSig accepts exactly the canonical hint encodings. Discharged for all inputs.",
+    "Not yet under contract: packSig and the hint-vector round trip (weight <= omega) and the decoded-hint characterisation of unpackSig; they are listed as not covered in DESIGN.md. Trusted: govc, solvers, spec reading of FIPS 204 algorithms 16-21.",
+    "contract-based deductive verification: VCs from the typed Go AST of /repo, exact machine-integer encoding with arithmetic bit-operation identities, z3/cvc5",
+    "DESIGN.md section 4 C13")
+add("C14", "proof",
+    "Zero-annotation safety obligations (index, slice bounds, nil dereference, division by zero, make size, negative shift, signed 64-bit overflow, XOF write-after-read) plus thin contracts for every function in the call graph of the listed entry points, for slices of ANY length and content; explicit refusals: every reachable panic statement must be one of the declared string refusals (Dilithium Verify/Open declare none); frame: entry points assign nothing caller-visible; termination: a variant for every counted loop. The check found a genuine out-of-range crash for 4 GiB messages (fixed, see known_findings.json).",
+    "Assumed: termination of the rejection-sampling loops (XOF-dependent), non-nil pointer arguments, no object >= 2^40 bytes, x/crypto/sha3 model (T4), strings.Split/reflect.DeepEqual contracts (T5), NewWOTSParams (float code) and GetEndian (unsafe) trusted with contracts confirmed by exhaustive runs of the real functions.",
+    "contract-based deductive verification: safety VCs generated without annotation for every fault class of the Go spec, discharged by z3/cvc5",
+    "DESIGN.md section 4 C14")
+add("C11", "proof",
+    "Contracts on GetXMSSAddressFromPK / GetLegacyXMSSAddressFromPK / GetDilithiumAddressFromPK (address = descriptor bytes || tail of SHAKE-256 resp. SHA-256 digest of the full key, hashes uninterpreted), IsValidXMSSAddress / IsValidDilithiumAddress / IsValidLegacyXMSSAddress as exact predicates (legacy: format nibble and 4-byte checksum = SHA-256 of the first 35 bytes), descriptor decode/encode contracts, and lemmas: descriptor round trip for all field values, own-scheme validity and other-scheme invalidity.",
+    "Hashes are uninterpreted functions of their input bytes (T4); reflect.DeepEqual assumed contract; an 'XMSS public key' is read as 'descriptor signature-type nibble = XMSS' (DESIGN.md C11 note).",
+    "contract-based deductive verification: functional contracts over symbolic byte arrays with uninterpreted hashes, z3/cvc5",
+    "DESIGN.md section 4 C11")
+
 reasons = {}
 for p in ALL:
     if p not in checks:
